@@ -59,6 +59,11 @@ Sensitivity (quick tier, seed 1, one textual mutation at a time on a scratch cop
     async-def form went through the same gen.multi; the generator form is now also compared with a reference rendering
     that awaits list/dict members one after the other (the documented equivalent), and the "all other failures are
     logged" sentence of the multi() docstring is checked by count.
+  * seeded C37-9 (round 9): Runner.handle_yield memoises the last yielded object and reuses its converted future when
+    the SAME list/dict object is yielded again after the coroutine changed it        -> caught at seeds 1-3 by the enumerated
+    `reusefam` family (C37.outcome_differs / trace_differs) since "the same container object awaited twice with a future
+    added / removed in between", "the same Future awaited repeatedly" and "repeated moment / None" became statements of
+    the grammar (`await2`, `repeat`).  Earlier version: missed (every wait built a fresh list/dict literal).
   DESIGN's "fast path returning before finally runs" has no small textual equivalent (the generator itself runs the
   finally); the two fast-path mutants above stand in for it.
 """
@@ -203,6 +208,48 @@ class Render:
                         continue
                 out.append(pad + "x = %s %s" % (kw, self.expr(e, style)))
                 out.append(pad + "emit(('got', repr(x)))")
+            elif k == "await2":
+                # the SAME list / dict object awaited twice, changed by the coroutine in between (reuse of a yielded object)
+                _, form, members, op, extra = s
+                kw = "yield" if style == "gen" else "await"
+                var = "_c%d" % ind
+                if form == "list":
+                    out.append(pad + "%s = [%s]" % (var, ", ".join(self.member(m) for m in members)))
+                else:
+                    out.append(pad + "%s = {%s}" % (var, ", ".join("%r: %s" % ("k%d" % j, self.member(m)) for j, m in enumerate(members))))
+                second = list(members)
+                for rnd in (0, 1):
+                    if rnd == 1:
+                        if op == "add":
+                            out.append(pad + ("%s.append(%s)" % (var, self.member(extra)) if form == "list"
+                                              else "%s['kx'] = %s" % (var, self.member(extra))))
+                            second = second + [extra]
+                        elif op == "remove" and members:
+                            out.append(pad + ("%s.pop()" % var if form == "list" else "%s.pop('k0')" % var))
+                            second = second[:-1] if form == "list" else second[1:]
+                    cur = members if rnd == 0 else second
+                    out.append(pad + "emit(('multi', %r))" % (tuple(m[1] for m in cur),))
+                    if style == "native" and self.sequential:
+                        if form == "list":
+                            out.append(pad + "_r = []")
+                            out.append(pad + "for _f in list(%s):" % var)
+                            out.append(pad + "    _r.append(await _f)")
+                        else:
+                            out.append(pad + "_r = {}")
+                            out.append(pad + "for _k, _f in list(%s.items()):" % var)
+                            out.append(pad + "    _r[_k] = await _f")
+                        out.append(pad + "x = _r")
+                    elif style == "gen":
+                        out.append(pad + "x = yield %s" % var)
+                    else:
+                        out.append(pad + "x = await gen.multi(%s)" % var)
+                    out.append(pad + "emit(('got', repr(x)))")
+            elif k == "repeat":
+                # the same object (one Future, gen.moment, None) awaited several times in a row
+                kw = "yield" if style == "gen" else "await"
+                for _ in range(s[2]):
+                    out.append(pad + "x = %s %s" % (kw, self.expr(s[1], style)))
+                    out.append(pad + "emit(('got', repr(x)))")
             elif k == "return":
                 out.append(pad + "return %s" % self.val(s[1]))
             elif k == "rreturn":
@@ -477,7 +524,7 @@ def run_case(ctx, case):
         awaits_reached = max(awaits_reached, sum(1 for e in tg if e[0] == "got"))
 
     def is_multi(s):
-        return s[0] == "await" and s[1][0] in ("list", "dict")
+        return (s[0] == "await" and s[1][0] in ("list", "dict")) or s[0] == "await2"
 
     bodies = [prog["main"]] + [s["body"] for s in prog["subs"]]
     has_multi = any(_count(b, is_multi) for b in bodies)
@@ -488,7 +535,7 @@ def run_case(ctx, case):
             fails = {i for i in range(nf) if sched["out"][i][0] == "e"}
 
             def has_failing_member(s):
-                return is_multi(s) and any(m[0] == "fut" and m[1] in fails for m in s[1][1])
+                return s[0] == "await" and is_multi(s) and any(m[0] == "fut" and m[1] in fails for m in s[1][1])
 
             if any(_count(b, has_failing_member) for b in bodies):
                 labels.add("multi_with_failure")
@@ -528,6 +575,14 @@ def _g_expr(draw, nf, nsub):
 
 def _g_simple(draw, nf, nsub, in_try):
     w = draw(W)
+    if w < 5 and nf:
+        k = draw(st.sampled_from([0, 1, 1, 2]))
+        members = [("fut", draw(st.integers(0, nf - 1))) for _ in range(k)]
+        return ("await2", draw(st.sampled_from(["list", "dict"])), members, draw(st.sampled_from(["add", "add", "remove", "same"])),
+                ("fut", draw(st.integers(0, nf - 1))))
+    if w < 8:
+        e = ("fut", draw(st.integers(0, nf - 1))) if nf and draw(W) < 50 else draw(st.sampled_from([("moment",), ("none",)]))
+        return ("repeat", e, draw(st.sampled_from([2, 2, 3])))
     if w < 52:
         return ("await", _g_expr(draw, nf, nsub))
     if w < 58:
@@ -654,6 +709,28 @@ def ctx_family():
                                "expect_ctx": reads, "expect_reset": resets}
 
 
+def reuse_family():
+    """A yielded object used again: the same list / dict object awaited twice with a future added / removed in between
+    (the second wait must cover the container as it is then), the same Future awaited repeatedly, repeated moment / None."""
+    E = {"r": ("r", 1), "A": ("e", "A")}
+    for form in ("list", "dict"):
+        for op in ("add", "remove", "same"):
+            for outs in ("rrr", "rrA", "rAr"):
+                for pre0, steps in ((True, [[1], [2]]), (False, [[0], [2], [1]]), (False, [[2], [1], [0]]), (True, [[2, 1]])):
+                    members = [("fut", 0)] if op == "add" else [("fut", 0), ("fut", 1)]
+                    body = [("await2", form, members, op, ("fut", 2)), ("emitx",), ("return", "x")]
+                    if "A" in outs:
+                        body = [("try", body[:1], [("A", [("emit", 1)])], None, None)] + body[1:]
+                    prog = {"nf": 3, "subs": [], "main": body, "force_gen": False}
+                    sched = {"out": [E[o] for o in outs], "pre": [pre0, False, False], "steps": steps}
+                    yield {"prog": prog, "scheds": [sched], "all_perms": False}
+    for e in (("fut", 0), ("moment",), ("none",)):
+        for times in (2, 3):
+            prog = {"nf": 1, "subs": [], "main": [("repeat", e, times), ("emitx",), ("return", "x")], "force_gen": False}
+            for pre0 in (True, False):
+                yield {"prog": prog, "scheds": [{"out": [("r", 4)], "pre": [pre0], "steps": [[0]]}], "all_perms": False}
+
+
 def multi_family():
     """yield [f...] / {k: f} with >= 2 failing children, the children resolved in every order; bare and inside try/except."""
     E = {"r": ("r", 1), "A": ("e", "A"), "B": ("e", "B")}
@@ -675,11 +752,12 @@ def multi_family():
                                "expect_multi_error": ("Err" + vec[first], ("F%d" % first,)), "caught": wrap}
 
 
-PARTS = {"main": run_case, "ctxfam": run_case, "multifam": run_case}
+PARTS = {"main": run_case, "ctxfam": run_case, "multifam": run_case, "reusefam": run_case}
 
 
 def main(ctx):
     ctx.run_replays(PARTS)
     ctx.enumerate(ctx_family(), run_case, name="ctxfam")
     ctx.enumerate(multi_family(), run_case, name="multifam")
+    ctx.enumerate(reuse_family(), run_case, name="reusefam")
     ctx.explore(case_s(ctx.thorough), run_case, ctx.n(500, 20000), name="main")
